@@ -61,6 +61,10 @@ def host_of(key):
     return 'h%d.test' % key
 
 
+import re
+_TASK_NAME = re.compile(r'^[cr][0-9]+$')
+
+
 def handle_task(handle):
     """The task a ready handle steps (pure-Python tasks are not instances of the C asyncio.Task)."""
     owner = getattr(getattr(handle, '_callback', None), '__self__', None)
@@ -93,6 +97,29 @@ def make_net(run):
     net = Net()
     net.default = Passive
     return net
+
+
+class NotStarted:
+    """Harness-side record of a check-in that was put into `_release_tasks` without being started as a task
+    (it then is not something the loop will ever run by itself)."""
+
+    def __init__(self, obj):
+        self.obj = obj
+
+    def done(self):
+        return False
+
+    def cancelled(self):
+        return False
+
+    def exception(self):
+        return None
+
+    def cancel(self):
+        try:
+            self.obj.close()
+        except Exception:
+            pass
 
 
 class LogSet(set):
@@ -229,8 +256,11 @@ class RealRun:
     def new_release_task(self, task):
         j = len(self.rel_tasks)
         self.rel_ids[task] = j
-        self.rel_tasks.append(task)
-        task.set_name('r%d' % j)
+        if asyncio.isfuture(task):
+            self.rel_tasks.append(task)
+            task.set_name('r%d' % j)
+        else:
+            self.rel_tasks.append(NotStarted(task))
         # which connection: the coroutine's argument is not reachable portably; recorded by the caller hook
         self.rel_conn.append(self._releasing)
         self.events.append('N%d,%d-%d' % ((j,) + self._releasing))
@@ -288,8 +318,8 @@ class RealRun:
             if h._cancelled:
                 continue
             t = handle_task(h)
-            if t is None:
-                internal.append(h)
+            if t is None or not _TASK_NAME.match(t.get_name()):
+                internal.append(h)      # stdlib callback, or a task the harness did not see being created
             else:
                 tasks.setdefault(t.get_name(), h)
         return internal, tasks
